@@ -367,6 +367,25 @@ func (r *srvRun) startReader(conn net.Conn, wire string) *sockReader {
 					}
 				}
 			}
+			if tc, ok := conn.(*tls.Conn); ok {
+				// the TLS conversation is over; is the TCP connection under it, too? (a close_notify alone
+				// leaves the socket open on the server)
+				raw := tc.NetConn()
+				raw.SetReadDeadline(time.Now().Add(500 * time.Millisecond))
+				buf := make([]byte, 512)
+				for {
+					_, e3 := raw.Read(buf)
+					if e3 == nil {
+						continue
+					}
+					if errors.As(e3, &ne) && ne.Timeout() {
+						raw.SetReadDeadline(time.Time{})
+						r.log(tr.Event{K: "halfclosed"})
+						return
+					}
+					break
+				}
+			}
 			r.log(tr.Event{K: "closed"})
 			return
 		}
